@@ -82,3 +82,42 @@ package pod_info
 //@   ensures [sched-type-memory] !pi.IsLegacyMIGtask && !sFracOk(pi.Pod) && sMemOk(pi.Pod) ==> pi.ResourceRequestType == RequestTypeGpuMemory
 //@   ensures [sched-not-sharing] !pi.IsLegacyMIGtask && !sFracOk(pi.Pod) && !sMemOk(pi.Pod) ==> gpuUnchanged0(pi) && (pi.ResourceRequestType == old(pi.ResourceRequestType) || pi.ResourceRequestType == RequestTypeMigInstance)
 //@ end
+
+// ---- requested by helper node (NodeInfo.AddTask/RemoveTask, C13) ---------------------------------------
+//@ declare isReservationPod(pod *v1.Pod) bool
+//@ func IsResourceReservationTask
+//@   props C01 C02 C14 C13
+//@   trusted
+//@   note reads pod.Labels and the process-wide config (conf.GetConfig takes a sync.Mutex: outside the subset); assumed a pure, deterministic function of the pod
+//@   requires pod != nil
+//@   pure
+//@   ensures result == isReservationPod(pod)
+//@ end
+
+//@ declare podKeyOf(pod *v1.Pod) string
+//@ func PodKey
+//@   props C01 C02 C14 C13
+//@   trusted
+//@   note clientcache.MetaNamespaceKeyFunc is external; assumed a pure, deterministic function of the pod (namespace/name)
+//@   requires pod != nil
+//@   pure
+//@   ensures result == podKeyOf(pod)
+//@ end
+
+//@ func (*PodInfo).Clone
+//@   props C01 C02 C14 C13
+//@   requires pi != nil && pi.ResReq != nil && pi.AcceptedResource != nil
+//@   fresh
+//@   ensures result != pi
+//@   ensures result.UID == pi.UID && result.Job == pi.Job && result.Name == pi.Name && result.Namespace == pi.Namespace && result.SubGroupName == pi.SubGroupName
+//@   ensures result.Status == pi.Status && result.Pod == pi.Pod && result.NodeName == pi.NodeName
+//@   ensures result.ResourceRequestType == pi.ResourceRequestType && result.ResourceReceivedType == pi.ResourceReceivedType && result.IsVirtualStatus == pi.IsVirtualStatus && result.IsLegacyMIGtask == pi.IsLegacyMIGtask
+//@   ensures len(result.GPUGroups) == len(pi.GPUGroups) && (forall i int :: 0 <= i && i < len(pi.GPUGroups) ==> result.GPUGroups[i] == pi.GPUGroups[i])
+//@   ensures result.ResReq != nil && result.AcceptedResource != nil && result.ResReq != pi.ResReq && result.AcceptedResource != pi.AcceptedResource
+//@   ensures result.VectorMap == pi.VectorMap
+//@   ensures [resreq-copied] result.ResReq.milliCpu == pi.ResReq.milliCpu && result.ResReq.memory == pi.ResReq.memory && result.ResReq.count == pi.ResReq.count && result.ResReq.portion == pi.ResReq.portion && result.ResReq.gpuMemory == pi.ResReq.gpuMemory
+//@   ensures [resreq-scalars-copied] forall k v1.ResourceName :: result.ResReq.scalarResources[k] == pi.ResReq.scalarResources[k] && (k in result.ResReq.scalarResources <==> k in pi.ResReq.scalarResources)
+//@   ensures [resreq-mig-copied] forall k v1.ResourceName :: result.ResReq.migResources[k] == pi.ResReq.migResources[k] && (k in result.ResReq.migResources <==> k in pi.ResReq.migResources)
+//@   ensures [resreq-dra-copied] forall k string :: result.ResReq.draGpuCounts[k] == pi.ResReq.draGpuCounts[k] && (k in result.ResReq.draGpuCounts <==> k in pi.ResReq.draGpuCounts)
+//@   ensures [accepted-copied] result.AcceptedResource.milliCpu == pi.AcceptedResource.milliCpu && result.AcceptedResource.memory == pi.AcceptedResource.memory && result.AcceptedResource.count == pi.AcceptedResource.count && result.AcceptedResource.portion == pi.AcceptedResource.portion && result.AcceptedResource.gpuMemory == pi.AcceptedResource.gpuMemory
+//@ end
